@@ -521,10 +521,15 @@ func (t *transpiler) evaluateStringSubscript(subscript parser.StringSubscript, v
 	if err != nil {
 		return expressionResult{}, err
 	}
-	endIndexResult, err := t.evaluateIndex(subscript.EndIndex(), true)
+	endIndexResult := startIndexResult
 
-	if err != nil {
-		return expressionResult{}, err
+	// Only evaluate the end-index if it is an expression of its own (s[i] must evaluate i once).
+	if subscript.HasEndIndex() {
+		endIndexResult, err = t.evaluateIndex(subscript.EndIndex(), true)
+
+		if err != nil {
+			return expressionResult{}, err
+		}
 	}
 	value := subscript.Value()
 	str, err := t.evaluateExpression(value, true)
